@@ -352,7 +352,7 @@ def _leaf_values(idx, f, expr, depth=3):
         out |= _leaf_values(idx, f, v, depth - 1)
       return out
     return {expr.id}
-  if isinstance(expr, ast.Call) and not expr.args and not expr.keywords:
+  if isinstance(expr, ast.Call):
     d = A.call_name(expr) or ''
     if d.startswith('self._') and d.count('.') == 1:
       cls = idx.enclosing_class(f)
